@@ -46,7 +46,7 @@ const (
 	// two memory databases of one shard created within one tick (5 ms) of fasttime share the key of
 	// the per-metric slot range; flushing one of them deletes the range of the other, whose data
 	// then is invisible and is skipped by its own flush (lost).
-	sigCreatedTime = "C11/memdb-createdtime-collision"
+	sigCreatedTime = "C11/memdb-created-in-same-tick-loses-flush" // repaired in /repo (035c997)
 	// two functions with different aggregates on one field in one statement (max(f), sum(f)):
 	// every aggregate array of a leaf is merged into every aggregate array of the next level.
 	sigMultiFunc = "C11/multi-function-same-field"
@@ -64,24 +64,24 @@ const (
 	// but before the window's highest written slot overwrites the window's end marker with the
 	// smaller offset; the later slots of the window become invisible to queries and are dropped by
 	// the next compress/flush (out-of-order write loses newer points).
-	sigWindowEnd = "C11/out-of-order-write-in-window-lowers-end"
+	sigWindowEnd = "C11/memdb-out-of-order-slot-lost" // repaired in /repo (b1a5d12)
 	// (property C09) the first row of a new metric is handled by the metadata worker (GenMetricID,
 	// GenFieldID) and the shard's index worker (GenMetricID, GenTagKeyID) concurrently;
 	// indexKVStore.getOrCreateValue and metricSchemaStore.genFieldID/genTagKeyID check outside the
 	// lock and do not re-check under it, so the metric can get two ids or the schema loses its
 	// fields / tag keys ("field not found" for every later query). While listed, the harness
 	// registers metric, tag keys and fields sequentially before the first write that needs them.
-	sigSchemaRace = "C09/schema-store-lost-update"
+	sigSchemaRace = "C09/concurrent-get-or-create-two-ids" // repaired in /repo (7b804d6)
 	// (property C09) a metadata/index flush cycle of a store that has nothing to flush leaves an empty
 	// immutable map behind; PrepareFlush never switches again, so names created later (here: a new
 	// series) are never written and are gone after an orderly restart. While listed, a history that
 	// reopens the engine flushes the data families only (no FlushMeta/FlushIndex before the Close).
-	sigFlushWedged = "C09/prepare-flush-wedged-by-empty-immutable"
+	sigFlushWedged = "C09/empty-flush-cycle-wedges-later-flushes" // repaired in /repo (3940569)
 	// tsdb/tblstore/metricsdata/reader.go readSeriesData: a file whose metric block holds a single
 	// field is read into query field index 0 whatever field it is; with >= 2 fields in the statement
 	// the values show up under the wrong field. While listed, statements with >= 2 distinct fields are
 	// only generated when every flushed memory database held >= 2 fields of the metric.
-	sigOneFieldFile = "C11/single-field-file-read-as-first-query-field"
+	sigOneFieldFile = "C03/single-field-block-read-by-multi-field-query" // repaired in /repo (862bf81)
 	// the memory database is read without any synchronisation with its single writer: a write that
 	// leaves the 15-slot window moves the window into the compressed buffer and resets the page; a
 	// query that read the compressed buffer before and reads the page after that misses points whose
@@ -173,6 +173,9 @@ type env struct {
 
 	lastNotFound string // text of the "not found" error the last query returned ("" = none)
 
+	forcePreRegister bool // regression tests: always register names sequentially (see sigSchemaRace)
+	forceWaitTick    bool // regression tests: never create two memory databases in one clock tick (see sigCreatedTime)
+
 	// flush-window tests
 	observers map[int64]*observer
 	ackSeq    int64
@@ -238,7 +241,7 @@ func (e *env) family(fam int64) (tsdb.DataFamily, error) {
 // waitTick: while the created-time collision is a known finding no two memory databases are created
 // within one tick of lindb's coarse clock.
 func (e *env) waitTick() {
-	if !ev.Known(sigCreatedTime) {
+	if !ev.Known(sigCreatedTime) && !e.forceWaitTick {
 		return
 	}
 	for fasttime.UnixNano() <= e.lastTick {
@@ -282,7 +285,7 @@ var fieldTypeOf = map[string]field.Type{tSum: field.SumField, tMin: field.MinFie
 
 // preRegister: see sigSchemaRace.
 func (e *env) preRegister(md metricDef, r rowSpec) error {
-	if !ev.Known(sigSchemaRace) {
+	if !ev.Known(sigSchemaRace) && !e.forcePreRegister {
 		return nil
 	}
 	if e.registered == nil {
